@@ -279,7 +279,9 @@ class _AndFilterToSqlWhere:
                 if file_filter.negated
                 else sql.Page.path.like  # type: ignore[attr-defined]
             )
-            and_conds.append(like_op(file_filter.path_glob.replace("*", "%")))
+            # Only '*' is a wildcard in an f= glob.
+            like_arg = _escape_like(file_filter.path_glob).replace("*", "%")
+            and_conds.append(like_op(like_arg, escape="\\"))
         return and_(and_conds[0], *and_conds[1:])
 
     @_to_sql_where_helper
